@@ -2984,6 +2984,86 @@ def _map_get(m, a, c):
     return some(mp.pairs[i][1])
 
 
+class MapEntry(object):
+    """std::collections::{btree_map, hash_map}::Entry: a map and the key asked for"""
+    __slots__ = ("mp", "key")
+
+    def __init__(self, mp, key):
+        self.mp, self.key = mp, key
+
+    def __repr__(self):
+        return "entry(%r)" % (self.key,)
+
+
+@mapreg("entry")
+def _map_entry(m, a, c):
+    mp = deref(a[0])
+    if not isinstance(mp, PyMap):
+        raise Unsupported("entry on %r" % (mp,))
+    return MapEntry(mp, a[1])
+
+
+def _entry_slot(m, e):
+    i = e.mp.find(e.key, m)
+    if i < 0:
+        return None
+    mp = e.mp
+    k = mp.pairs[i][0]
+
+    def get():
+        return mp.pairs[mp.find(k, m)][1]
+
+    def set_(x):
+        j = mp.find(k, m)
+        mp.pairs[j] = (mp.pairs[j][0], x)
+    return MutRef(get, set_)
+
+
+_ENTRY = ["std::collections::btree_map::Entry::<'a, K, V, A>::", "std::collections::btree_map::Entry::<'a, K, V>::",
+          "std::collections::hash_map::Entry::<'a, K, V>::", "std::collections::hash_map::Entry::<'a, K, V, A>::"]
+
+
+def _entryreg(*names):
+    def deco(f):
+        for pre in _ENTRY:
+            for n in names:
+                TABLE[pre + n] = f
+        return f
+    return deco
+
+
+@_entryreg("and_modify")
+def _entry_and_modify(m, a, c):
+    e = deref(a[0])
+    if not isinstance(e, MapEntry):
+        raise Unsupported("and_modify on %r" % (e,))
+    slot = _entry_slot(m, e)
+    if slot is not None:
+        m.call_value(a[1], [slot])
+    return e
+
+
+@_entryreg("or_insert_with", "or_insert", "or_default", "or_insert_with_key")
+def _entry_or_insert(m, a, c):
+    e = deref(a[0])
+    if not isinstance(e, MapEntry):
+        raise Unsupported("or_insert on %r" % (e,))
+    slot = _entry_slot(m, e)
+    if slot is None:
+        nm = c.get("name")
+        if nm == "or_insert":
+            v = a[1]
+        elif nm == "or_insert_with":
+            v = m.call_value(a[1], [])
+        elif nm == "or_insert_with_key":
+            v = m.call_value(a[1], [e.key])
+        else:
+            raise Unsupported("Entry::or_default")
+        _map_insert(m, [e.mp, e.key, v], c)
+        slot = _entry_slot(m, e)
+    return slot
+
+
 @mapreg("contains_key")
 def _map_contains(m, a, c):
     mp = deref(a[0])
